@@ -74,13 +74,31 @@ TEXT_SAMPLES = ["plain", "a<b>&c", "quote\"'", "Müller 日本", "x]]>y", " lead
 ATTR_SAMPLES = ["v", "a<b>&\"c'", "é日本", "tab\there", "nl\nhere", " sp ", "http://example.org/?a=1&b=2", "2020-01-01T00:00:00Z"]
 
 
+TYPED_LEXICAL = {
+    "boolean": ["true", "false", "1", "0"],
+    "integer": ["0", "7", "007", "+3", "-1"], "nonNegativeInteger": ["0", "7", "007", "+3"], "positiveInteger": ["1", "007", "+3"], "PositiveInteger": ["1", "007"],
+    "unsignedShort": ["0", "7", "007", "65535"], "unsignedByte": ["0", "255", "07"], "unsignedInt": ["0", "42"], "unsignedLong": ["0", "42"],
+    "dateTime": ["2020-01-01T00:00:00Z", "2020-01-01T00:00:00.5Z", "2020-01-01T00:00:00.123456789Z", "2020-01-01T00:00:00", "2020-01-01T01:00:00+01:00"],
+    "datetime": ["2020-01-01T00:00:00Z", "2020-01-01T00:00:00.5Z"],
+    "duration": ["PT5M", "P1D", "P1Y2M3DT4H5M6S", "-P1D", "PT0.5S"],
+    "anyURI": ["http://example.org/x", "urn:a:b", "", "relative/path?q=1#f", "https://EXAMPLE.org/%7Ea"],
+    "ID": ["id-1", "_x", "A.b-c"], "NCName": ["abc", "_a.b-c"], "QName": ["xs:string", "a"], "NMTOKEN": ["tok", "1a"], "NMTOKENS": ["a b", "x"],
+    "base64Binary": ["QUJD", "QUJ D", "", "QQ=="], "string": ["", " ", "x"],
+}
+
+
 def make_instance(cls, rng, depth=2, fill=0.7, foreign=0.0, stats=None, want_text=True):
     """Instance of cls with attributes/children/text set directly on the members."""
     from saml2_tophat import ExtensionElement
     inst = cls()
     for xml_name, (member, typ, required) in cls.c_attributes.items():
         if required or rng.random() < fill:
-            setattr(inst, member, rng.choice(ATTR_SAMPLES) + gen.word(rng, 0, 3))
+            lex = TYPED_LEXICAL.get(str(typ).split(":")[-1]) if not isinstance(typ, type) else None
+            if lex and rng.random() < 0.6:
+                # every legal lexical form of the declared type is just a string to carry: "1" is not "true", "007" is not "7"
+                setattr(inst, member, rng.choice(lex))
+            else:
+                setattr(inst, member, rng.choice(ATTR_SAMPLES) + gen.word(rng, 0, 3))
     nchildren = 0
     if depth > 0:
         for tag, member, ccls, is_list in child_specs(cls):
